@@ -247,7 +247,7 @@ func mergeOrders(lens []int, f func([]int)) {
 
 func TestCheck(t *testing.T) {
 	r := rep.New("C12", "model_checking",
-		"join and union over all merge orders: a real task with two (or three) from() parents feeding join(...).as(...) [tolerance 0/2s, fill none/null/0.0, on('h') with a more specific parent] and union(...); per-parent non-decreasing time sequences of up to 3 points over times {1,2,3,5}s (duplicates, gaps, silent parent); for every pair/triple of sequences ALL merge orders are fed one point at a time with quiescence in between, so the arrival order at the real multi-parent consumer is exactly the merge order. Oracles: the multiset of joined points is identical for every merge order of the same sequences (differential), equals the k-th-occurrence pairing reference (no on-dimension), everything buffered is flushed at task end; union emits every message once, keeps each parent's order and is non-decreasing in time. states = distinct (config, sequences) inputs; transitions = points fed; non-trivial = inputs with at least one joined point")
+		"join and union over all merge orders: a real task with two (or three) from() parents feeding join(...).as(...) [tolerance 0/2s/3s, fill none/null/0.0, on('h') with a more specific parent] and union(...); per-parent non-decreasing time sequences of up to 3 points over times {1,2,3,5}s ({1,2,4,5}s for tolerance 3s: raw times before and after the rounded time) (duplicates, gaps, silent parent); for every pair/triple of sequences ALL merge orders are fed one point at a time with quiescence in between, so the arrival order at the real multi-parent consumer is exactly the merge order. Oracles: the multiset of joined points is identical for every merge order of the same sequences (differential), equals the k-th-occurrence pairing reference (no on-dimension), everything buffered is flushed at task end; union emits every message once, keeps each parent's order and is non-decreasing in time. states = distinct (config, sequences) inputs; transitions = points fed; non-trivial = inputs with at least one joined point")
 	defer r.Write()
 	r.Assumption("parents deliver their points in time order (precondition of the statement)")
 	r.Assumption("join with on(): only the merge-order independence is asserted (no absolute pairing reference)")
@@ -286,6 +286,8 @@ func TestCheck(t *testing.T) {
 		}
 	}
 	cfgs = append(cfgs, Config{Three: true}, Config{Three: true, Fill: "null", TolS: 2})
+	// tolerance 3s: raw times on both sides of the rounded time (1s rounds down, 2s and 4s round to 3s)
+	cfgs = append(cfgs, Config{TolS: 3}, Config{TolS: 3, Fill: "null"}, Config{TolS: 3, On: true})
 	maxLen := 3
 	times := []int{1, 2, 3, 5}
 	if !rep.Thorough() {
@@ -295,12 +297,16 @@ func TestCheck(t *testing.T) {
 	for _, cfg := range cfgs {
 		ml := maxLen
 		if !rep.Thorough() {
-			full := (cfg == Config{}) || (cfg == Config{TolS: 2, Fill: "null"}) || (cfg == Config{Fill: "0", On: true})
+			full := (cfg == Config{}) || (cfg == Config{TolS: 2, Fill: "null"}) || (cfg == Config{Fill: "0", On: true}) || (cfg == Config{TolS: 3})
 			if !full {
 				ml = 2
 			}
 		}
-		seqs := seqsUpTo(ml, times)
+		tms := times
+		if cfg.TolS == 3 {
+			tms = []int{1, 2, 4, 5}
+		}
+		seqs := seqsUpTo(ml, tms)
 		var inputs [][][]int
 		for _, a := range seqs {
 			for _, b := range seqs {
